@@ -106,7 +106,28 @@ func run(c Case) (res ev.Result) {
 			abs += int64(e.Delta)
 			switch e.Kind {
 			case "note":
-				msg := []byte{0x90 | byte(ti&15), byte(id % 128), byte(1 + (id/128)%127)}
+				// all seven kinds of channel message (note-on also with velocity 0), each message
+				// unique through its channel / kind / data bytes
+				ch, rest := byte(ti&15), id/8
+				var msg []byte
+				switch id % 8 {
+				case 0:
+					msg = []byte{0x90 | ch, byte(rest % 128), byte(1 + (rest/128)%127)}
+				case 1:
+					msg = []byte{0x80 | ch, byte(rest % 128), byte((rest / 128) % 128)}
+				case 2:
+					msg = []byte{0x90 | ch, byte(rest % 128), 0} // a note-on that ends a note
+				case 3:
+					msg = []byte{0xA0 | ch, byte(rest % 128), byte((rest / 128) % 128)}
+				case 4:
+					msg = []byte{0xB0 | ch, byte(rest % 128), byte((rest / 128) % 128)}
+				case 5:
+					msg = []byte{0xC0 | ch, byte(rest % 128)}
+				case 6:
+					msg = []byte{0xD0 | ch, byte(rest % 128)}
+				default:
+					msg = []byte{0xE0 | ch, byte(rest % 128), byte((rest / 128) % 128)}
+				}
 				id++
 				tr.Add(e.Delta, msg)
 				plan = append(plan, planned{ti, n, abs, msg})
@@ -412,7 +433,7 @@ func genCase(t *rapid.T) Case {
 }
 
 var play = ev.NewCheck("C12", "playback",
-	"rapid: format-1 files with 1..5 tracks; 1..6 grid ticks recur in every track with 0..14 events each (so ticks are shared within and across tracks and the concatenation of the tracks is not ordered by time), off-grid notes, metas, sysex and tempo changes sprinkled in; resolution 960 with tempi making one tick 1..50 us (in one case of five no tempo event at tick 0, i.e. 120 BPM until the first later tempo event), whole file <= ~25 ms; channel messages unique (id in channel/key/velocity); Play(out) or MultiPlay with explicit, default (-1) and missing port mappings; optional track selection; read with ReadTracksFrom or (one case of four) from a temporary file with ReadTracks; in one case of five the same TracksReader is played a second time and both runs are checked; oracle on recording fake out ports (instant = time.Since(start) inside Send): every channel message of a selected, mapped track exactly once on its port, no meta event ever, per-track send order == file order, global order non-decreasing in scheduled time (exact tempo-map integral), no send before its scheduled time; sysex filtered from the comparison; non-trivial = >= 2 selected tracks, > 12 messages and a tick shared by >= 2 events of one track and by another track; distinct by case hash",
+	"rapid: format-1 files with 1..5 tracks; 1..6 grid ticks recur in every track with 0..14 events each (so ticks are shared within and across tracks and the concatenation of the tracks is not ordered by time), off-grid notes, metas, sysex and tempo changes sprinkled in; resolution 960 with tempi making one tick 1..50 us (in one case of five no tempo event at tick 0, i.e. 120 BPM until the first later tempo event), whole file <= ~25 ms; channel messages of all seven kinds (note-on also with velocity 0), each unique by its bytes; Play(out) or MultiPlay with explicit, default (-1) and missing port mappings; optional track selection; read with ReadTracksFrom or (one case of four) from a temporary file with ReadTracks; in one case of five the same TracksReader is played a second time and both runs are checked; oracle on recording fake out ports (instant = time.Since(start) inside Send): every channel message of a selected, mapped track exactly once on its port, no meta event ever, per-track send order == file order, global order non-decreasing in scheduled time (exact tempo-map integral), no send before its scheduled time; sysex filtered from the comparison; non-trivial = >= 2 selected tracks, > 12 messages and a tick shared by >= 2 events of one track and by another track; distinct by case hash",
 	genCase, run)
 
 func TestPropPlayback(t *testing.T) { play.Rapid(t, 150, 2000) }
